@@ -99,7 +99,21 @@ class DropAudit:
         # variants with no state payload: (adt, variant name)
         self.variant_free = variant_free or {("crate::stream::Stream", "Empty"), ("std::option::Option", "None")}
         self.max_states = max_states
-        self.bools = {i for i, l in enumerate(self.mir["locals"]) if l["ty"] == "bool"}
+        bools = {i for i, l in enumerate(self.mir["locals"]) if l["ty"] == "bool"}
+        # drop flags: bool locals that are only ever assigned the constants true / false
+        nonflag = set()
+        for b in self.mir["blocks"]:
+            for s in b["stmts"]:
+                if s["k"] == "assign" and not s["place"]["p"] and s["place"]["l"] in bools:
+                    rv = s["rv"]
+                    if not (rv["k"] == "use" and "const" in rv["op"] and rv["op"]["const"] in ("true", "false", "const true", "const false")):
+                        nonflag.add(s["place"]["l"])
+            tm = b["term"]
+            if tm["k"] == "call" and tm.get("dest") is not None and not tm["dest"]["p"] and tm["dest"]["l"] in bools:
+                nonflag.add(tm["dest"]["l"])
+        self.bools = bools - nonflag
+        # variants are tracked only for places rooted in locals whose type can hold search state
+        self.state_locals = {i for i, l in enumerate(self.mir["locals"]) if ty_contains(l["tys"], self.adts, through_ref=True)} | {0}
         self.events = []  # (kind, block, info)
         self.exhausted = False
         self.const_variant = {}
@@ -145,7 +159,7 @@ class DropAudit:
                 elif dl in self.bools:
                     nxt = [(bb, ("flag", dl, int(v))) for v, bb in t["targets"]]
                     nxt.append((t["otherwise"], ("flag", dl, 1)))
-                elif src is not None:
+                elif src is not None and src[0] in self.state_locals:
                     known = self._known_idx(src, variants)
                     taken = set()
                     for v, bb in t["targets"]:
@@ -205,7 +219,7 @@ class DropAudit:
         k = rv["k"]
         if k == "use":
             op = rv["op"]
-            if "const" in op and not pl["p"]:
+            if "const" in op and not pl["p"] and pl["l"] in self.bools:
                 if op["const"] in ("true", "const true"):
                     flags[pl["l"]] = 1
                 elif op["const"] in ("false", "const false"):
@@ -213,20 +227,22 @@ class DropAudit:
             src = op.get("copy") or op.get("move")
             if src is not None:
                 sk = place_key(src)
-                if sk in variants:
+                if sk in variants and key[0] in self.state_locals:
                     variants[key] = variants[sk]
                 if not pl["p"] and not src["p"] and src["l"] in refs:
                     refs[pl["l"]] = refs[src["l"]]
-                if not pl["p"] and not src["p"] and src["l"] in flags and isinstance(flags[src["l"]], int):
+                if not pl["p"] and not src["p"] and src["l"] in flags and isinstance(flags[src["l"]], int) and pl["l"] in self.bools:
                     flags[pl["l"]] = flags[src["l"]]
         elif k == "discr" and not pl["p"]:
             src = self._resolve(rv["place"], refs)
             flags[("discr_of", pl["l"])] = src
-        elif k == "aggregate" and "adt" in rv:
+        elif k == "aggregate" and "adt" in rv and key[0] in self.state_locals:
             adt = norm(rv["adt"])
             variants[key] = ("named", adt, rv["variant"])
         elif k == "ref" and not pl["p"]:
-            refs[pl["l"]] = self._resolve(rv["place"], refs)
+            tgt = self._resolve(rv["place"], refs)
+            if tgt[0] in self.state_locals:
+                refs[pl["l"]] = tgt
 
     def _resolve(self, place, refs):
         """Place key with leading deref of a tracked reference local replaced by its target."""
